@@ -14,6 +14,7 @@ from . import _partner as P
 
 ID = "C09"
 OPTIMISED_STRIDE = {"quick": 10, "thorough": 20}      # every k-th shard once more in an interpreter started with -O
+CHAIN_STRIDE = {'quick': 12, 'thorough': 40}      # every k-th shard is re-run in chains inside one process (non-initial process states)
 LEVEL = "model_checking"
 ENGINE = "E2"
 TECHNIQUE = "stateless exploration of the real memory-read generators against a spec model of IEC 62386-102 9.10 memory access: all declared values x images x bank shapes, faults and live-memory ticks deviation-bounded"
